@@ -76,8 +76,10 @@ TickInst(o, i, e) ==
       \* C10 promptness: a ready, served, takeover-enabled candidate next to a claiming leader whose stored priority is strictly
       \* lower, in fault-free conditions (no fault, no outside writer, latency bound <= H/10) - armed when that begins to hold
       rk == o.rec[x.cfg.group]
-      canPre == /\ x.cfg.tk /\ Cand(o, i) /\ ~o.faulty /\ ~o.hard /\ ~o.outside /\ ~o.hc /\ 10 * o.L <= o.H
+      \* (the leader has no health checker: one that has may skip refreshes and step down by itself)
+      canPre == /\ x.cfg.tk /\ Cand(o, i) /\ ~o.faulty /\ ~o.hard /\ ~o.outside /\ 10 * o.L <= o.H
                 /\ rk.live /\ rk.cls = "payload" /\ rk.id \in Ids /\ rk.id # i /\ x.cfg.prio > rk.prio
+                /\ o.I[rk.id].cfg.hn < 0
                 /\ o.I[rk.id].claim /\ o.I[rk.id].ttok = rk.tok
                 /\ (\A op \in o.pend : op.i = i => t - op.at <= 2 * o.L + 1000)
       gr  == x.graceDue >= 0 /\ t > x.graceDue
@@ -514,6 +516,10 @@ H_snap(o, e) ==
                  /\ (\A op \in o1.pend : op.i = i => e.t - op.at <= 2 * o1.L + 1000)
       v18d == IF follower /\ settled /\ e.slid # r.id THEN {V("C18", "follower_leader_id_not_converged", i, e)} ELSE {}
       v02 == IF Calm(o1) /\ y.claim /\ ~ClaimBacked(i, r, y.ttok) THEN {V("C02", "claim_not_backed_by_record" \o CtxI(o, i), i, e)} ELSE {}
+      \* the live record is this instance's own write and names it, yet carries another token than the term it claims: no
+      \* fault, outside writer or preemption accounts for that (a sibling acquisition of the same instance rewrote it)
+      v02c == IF y.claim /\ quiet /\ ~o1.faulty /\ ~o1.outside /\ ~o1.hard /\ r.live /\ r.cls = "payload" /\ r.writer = i /\ r.id = i /\ r.tok # y.ttok
+              THEN {V("C02", "claim_contradicted_by_own_record", i, e)} ELSE {}
       v02b == IF Calm(o1) /\ ~AtMostOneLeader(Claims(o1, k)) THEN {V("C02", "two_leaders" \o CtxAny(o, k), i, e)} ELSE {}
       v07 == IF Quiet(o1) /\ y.claim /\ e.tok # y.ttok THEN {V("C07", "term_token_changed", i, e)} ELSE {}
       v05 == IF y.claim /\ quiet /\ (e.tok # y.ttok \/ e.stok # y.ttok) THEN {V("C05", "token_accessors_differ_from_record_token", i, e)} ELSE {}
@@ -538,7 +544,7 @@ H_snap(o, e) ==
                      !.failRun = IF v03b # {} THEN 0 ELSE @,
                      !.verify = IF quiet /\ @ = "failed" /\ ~vpend THEN "none" ELSE @]
   IN R(SetI(o1, i, z),
-       r0.v \cup v18a \cup v18b \cup v18c \cup v18d \cup v02 \cup v02b \cup v07 \cup v05 \cup v08 \cup v12
+       r0.v \cup v18a \cup v18b \cup v18c \cup v18d \cup v02 \cup v02b \cup v02c \cup v07 \cup v05 \cup v08 \cup v12
             \cup v19 \cup v03 \cup v03b \cup vver \cup v09)
 
 \* terminal events
